@@ -10,7 +10,7 @@ from lib import common as C
 from py2v import gen
 
 PROP = "C19"
-PROPS_FILES = ["Props/C19.v", "Props/C19_cdf.v"]
+PROPS_FILES = ["Props/C19.v", "Props/C19_cdf.v", "Props/C19_view.v"]
 ASSUMPTIONS = [
   "exact arithmetic over Q: every finite double is a rational; on the exact streams (dyadic coordinates, power-of-two widths, "
   "square one-hot dimension) every double operation of the implementation is exact, elsewhere a stated tolerance is used",
@@ -26,11 +26,17 @@ ASSUMPTIONS = [
   "aliasing clauses (state restored, inputs unmodified) are decided by run-time comparison in the harness",
 ]
 TRUSTED = ["tools/props/C19.py case generator, scripted failure model / optimiser / numpy.random.choice, Q-literal printer",
-           "Model/SearchAFCorr.v check function"]
+           "Model/SearchAFCorr.v check function",
+           "search view (kind sview): lib.c06_util request builder / object reader and tools/props/C06.py literal printers (shared with C06), "
+           "Model/SearchViewCorr.v svcheck (C06's pf_match comparison)"]
 
 F = fractions.Fraction
 HEADER = ("From Coq Require Import List QArith Bool Arith.\nFrom LV Require Import Model.SearchAF Model.SearchAFCorr.\n"
           "Open Scope Q_scope.")
+# the real search view's failure model (kind "sview"): own case type, on the request / description types of Model/Wiring.v (C06)
+HEADER_SV = ("From Coq Require Import List QArith ZArith Bool.\n"
+             "From LV Require Import Model.Domain Model.Midpoint Model.Phases Model.Wiring Model.WiringCorr Model.SearchView Model.SearchViewCorr.\n"
+             "Open Scope Q_scope.")
 SCHEDULE = [0.04, 0.01, 0.0025, 0.0004]
 
 # ------------------------------------------------------------------------------------------ domain descriptions
@@ -258,10 +264,11 @@ class ScriptedChoice:
     return False
 
 
-def run_eval(inp):
+def eval_setup(inp, dom=None):
+  """constructor and add_normalized_repulsor_point calls of an eval case (on the live domain object `dom` when one is given)"""
   from libsigopt.compute.search import ProbabilityOfImprovementSearch
   desc = inp["domain"]
-  dom, D = mk_domain(desc), oh_dim(desc)
+  dom, D = dom or mk_domain(desc), oh_dim(desc)
   fm, pfs = make_fm(D, inp["fm"])
   dp = numpy.array([inp["dp"]]) if inp.get("dp_as_array") else inp["dp"]
   r0 = None if inp["r0"] is None else arr(inp["r0"], D, style_of(inp, "r0"))
@@ -271,6 +278,12 @@ def run_eval(inp):
   adds_before = [a.copy() for a in adds]
   for a in adds:
     af.add_normalized_repulsor_point(a)
+  return dict(af=af, fm=fm, pfs=pfs, dp=dp, r0=r0, r0_before=r0_before, adds=adds, adds_before=adds_before, D=D)
+
+
+def run_eval(inp, dom=None, st=None):
+  st = st or eval_setup(inp, dom)
+  af, fm, pfs, dp, r0, r0_before, adds, adds_before, D = (st[k] for k in ("af", "fm", "pfs", "dp", "r0", "r0_before", "adds", "adds_before", "D"))
   p = arr(inp["pts"], D, style_of(inp, "pts"))
   p_before = p.copy()
   if inp.get("pre_dp") is not None:
@@ -292,12 +305,12 @@ def run_eval(inp):
   return out
 
 
-def run_loop(inp):
+def run_loop(inp, dom=None):
   """search_strategy_optimization with a scripted optimiser (the DEOptimizer name in the view module is replaced)."""
   from libsigopt.compute.search import ProbabilityOfImprovementSearch
   from libsigopt.views.rest import search_next_points as snp
   desc = inp["domain"]
-  dom, D = mk_domain(desc), oh_dim(desc)
+  dom, D = dom or mk_domain(desc), oh_dim(desc)
   fm, _ = make_fm(D, inp["fm"])
   af = ProbabilityOfImprovementSearch(dom, fm, inp["dp0"], arr(inp["r0"], D, style_of(inp, "r0")))
   init_reps = af.repulsor_points.copy()
@@ -395,11 +408,11 @@ def gen_realloop(rng):
                                            wrap=rng.random() < 0.5, scale=rng.choice([1.0, 4.0]), yscale=1.0)))
 
 
-def run_view(inp):
+def run_view(inp, dom=None):
   """The body of SearchNextPoints.next_points_probability_improvement on a stand-in `self`."""
   from libsigopt.views.rest import search_next_points as snp
   desc = inp["domain"]
-  dom, D = mk_domain(desc), oh_dim(desc)
+  dom, D = dom or mk_domain(desc), oh_dim(desc)
   fm, _ = make_fm(D, dict(type="table", table=[]))
   seen = {}
 
@@ -433,24 +446,170 @@ def run_view(inp):
   return dict(reps=seen["reps"], dp=seen["dp"], tag_reps=numpy.asarray(me.tag["af_info"]["repulsor_points"]).tolist())
 
 
-def run_impl(kind, inp):
+# ------------------------------------------------------------------------------------------ histories on ONE live domain object
+# Every other kind builds a fresh CategoricalDomain per call sequence.  A view keeps one domain object for its whole life and the
+# helpers are handed that same object again and again (normalise, map back, normalise the next batch, evaluate ...): kind "hist" is a
+# list of ordinary call sequences (`ops`: unit / search / dist / eval / view / loop, each with the input of that kind) run one after the
+# other on ONE domain object.  An eval op marked `early` has its acquisition function constructed (repulsors normalised) BEFORE the
+# first op and evaluated when its turn comes.  What each op returns must be what it returns on a fresh domain, and the domain's
+# bounds must be what they were (a caller-owned input).
+
+HIST_KINDS = ("unit", "search", "dist", "eval", "view", "loop")
+
+
+def _domain_state(dom):
+  lo, hi = dom.one_hot_domain.get_lower_upper_bounds()
+  return [numpy.array(lo, dtype=float, copy=True), numpy.array(hi, dtype=float, copy=True),
+          numpy.array(dom.one_hot_domain.domain_bounds, dtype=float, copy=True)]
+
+
+def run_hist(inp):
+  dom = mk_domain(inp["domain"])
+  state0 = _domain_state(dom)
+  early = {i: eval_setup(op["inp"], dom) for i, op in enumerate(inp["ops"]) if op["kind"] == "eval" and op.get("early")}
+  outs = []
+  for i, op in enumerate(inp["ops"]):
+    assert op["kind"] in HIST_KINDS
+    out = run_impl(op["kind"], op["inp"], dom=dom, st=early.get(i))
+    out["domain_unmodified"] = bool(all(numpy.array_equal(a, b) for a, b in zip(state0, _domain_state(dom))))
+    outs.append(out)
+  return dict(outs=outs)
+
+
+# ------------------------------------------------------------------------------------------ the REAL search view
+# kind "sview": SearchNextPoints(params) built from a raw request (format of lib.c06_util: plain lists), with several metrics of which
+# the constraint metrics are listed in ANY order and interleaved with stored metrics; next_points_probability_improvement() is run with
+# the optimisation replaced by a recorder, and the acquisition function the view built is evaluated at the request's query points.
+
+
+def raw_dim(comps):
+  return sum(len(c["el"]) if c["t"] == "cat" else 1 for c in comps)
+
+
+def raw_bounds(c):
+  return (c["lo"], c["hi"]) if c["t"] in ("double", "int") else (min(c["el"]), max(c["el"]))
+
+
+def raw_sqdist(comps, p, q):
+  """own squared distance in the normalised search space of two CONFIGURATIONS (category labels, not one-hot)"""
+  D, tot = raw_dim(comps), F(0)
+  for x, y, c in zip(p, q, comps):
+    if c["t"] == "cat":
+      tot += 2 * D if x != y else 0
+    else:
+      lo, hi = (F(float(v)) for v in raw_bounds(c))
+      tot += ((F(float(x)) - F(float(y))) / (hi - lo)) ** 2
+  return tot
+
+
+def run_sview(inp):
+  from lib import c06_util as U
+  from libsigopt.views.rest import search_next_points as snp
+  raw = inp["raw"]
+  params = U.build_params(raw)
+  params["num_to_sample"] = 1
+  comps = raw["comps"]
+  before = (numpy.array(params["points_sampled"].values, copy=True), numpy.array(params["points_sampled"].points, copy=True))
+  view = snp.SearchNextPoints(params)
+  got = {}
+
+  def recorder(acquisition_function, num_to_sample):
+    got["af"] = acquisition_function
+    return numpy.array([U.r_one_hot(comps, raw["points"][0], None)] * num_to_sample, dtype=float), {}
+
+  orig = snp.search_strategy_optimization, snp.convert_from_one_hot
+  snp.search_strategy_optimization = recorder
+  snp.convert_from_one_hot = lambda p, d, a: p
+  state = numpy.random.get_state()
+  numpy.random.seed(0)
+  try:
+    with ScriptedChoice([inp["draw"]]):
+      view.next_points_probability_improvement()
+  finally:
+    snp.search_strategy_optimization, snp.convert_from_one_hot = orig
+    numpy.random.set_state(state)
+  af = got["af"]
+  xq = numpy.array([U.r_one_hot(comps, q, None) for q in raw["evalp"]], dtype=float)
+  values = [float(v) for v in af.evaluate_at_point_list(xq.copy())]
+  members = list(af.failure_model.list_of_probabilistic_failures)
+  return dict(values=values, dp=float(numpy.asarray(af.distance_parameter).reshape(-1)[0]), reps=numpy.asarray(af.repulsor_points).tolist(),
+              factors=[[float(v) for v in m.compute_probability_of_success(xq.copy())] for m in members],
+              pfs=[dict(kind=type(m).__name__, thr=float(m.threshold), gp=U._gp_obs(m.predictor)) for m in members],
+              inputs_unmodified=bool(numpy.array_equal(before[0], params["points_sampled"].values) and numpy.array_equal(before[1], params["points_sampled"].points)))
+
+
+COND_MAX = 1e9
+
+
+def ref_sview(raw):
+  """Independent per-metric reference of the search view's success probability: for EVERY constraint metric c (identified by its
+  column number, whatever its place in the index list) a Gaussian process on that metric's own column (scaled by that metric's own
+  midpoint map, failures and - under constant liar - pending points holding its own worst value), with that metric's own
+  hyperparameters, against that metric's own threshold; the value is the product of Phi((t_c - mean_c) / sd_c).  Plain Python /
+  numpy.linalg (lib.c06_util.RefGP, r_midpoint: no library code).  Returns per query point (probability, tolerance), or None when a
+  kernel matrix is too ill-conditioned to judge."""
+  from lib import c06_util as U
+  comps, fails, n = raw["comps"], list(raw["fails"]), len(raw["points"])
+  dim = raw_dim(comps)
+  mean_rows = U.r_poly_rows(raw["mean"], raw["poly"], dim)
+  X = [U.r_one_hot(comps, q, None) for q in raw["points"]]
+  XP = [U.r_one_hot(comps, q, None) for q in raw["pending"]]
+  XQ = [U.r_one_hot(comps, q, None) for q in raw["evalp"]]
+  liar = raw["par"] == "constant_liar"
+  models = []
+  for c in raw["con_ix"]:
+    col = [raw["values"][r][c] for r in range(n)]
+    m = U.r_midpoint(col, fails, raw["objs"][c])
+    lie = U.r_scale(m, m["worst"])
+    y = [lie if fails[r] else U.r_scale(m, col[r]) for r in range(n)]
+    nv = [U.r_scale_var(m, raw["vars"][r][c]) for r in range(n)]
+    Xr = list(X)
+    if liar:
+      Xr, y, nv = Xr + XP, y + [lie] * len(XP), nv + [U.LIE_NOISE] * len(XP)
+    gp = U.RefGP(Xr, y, nv, raw["hypers"][c], comps, False, mean_rows)
+    if gp.cond > COND_MAX:
+      return None
+    models.append((gp, U.r_scale(m, float(raw["thr"][c])), max(abs(v) for v in y) if y else 0.0))
+  out = []
+  for q in XQ:
+    prob, tol = 1.0, 1e-9
+    for gp, t, ymax in models:
+      mu, var = gp.predict(q)
+      sd = math.sqrt(var)
+      z = (t - mu) / sd
+      prob *= U._phi(z)
+      # rounding of the two posterior solves (forward error ~ eps * cond): d mean <= 1e-15 cond |y|, d var <= 1e-15 cond alpha;
+      # |d Phi| <= 0.4 |dz|, dz = d mean / sd + |z| d var / (2 var)
+      dmu = (1e-12 + 1e-15 * gp.cond) * (ymax + abs(t) + 1e-3)
+      dvar = (1e-13 + 1e-15 * gp.cond) * gp.alpha
+      tol += 0.4 * (dmu / sd + abs(z) * dvar / (2 * var))
+    out.append((prob, tol))
+  return out
+
+
+def run_impl(kind, inp, dom=None, st=None):
+  """one call sequence of kind `kind`; on the live domain object `dom` when one is given (kind 'hist'), else on a fresh one"""
   from libsigopt.compute import search as S
   from libsigopt.aux.geometry_utils import compute_distance_matrix_squared
   if kind == "eval":
-    return run_eval(inp)
+    return run_eval(inp, dom, st)
   if kind == "loop":
-    return run_loop(inp)
+    return run_loop(inp, dom)
   if kind == "view":
-    return run_view(inp)
+    return run_view(inp, dom)
+  if kind == "hist":
+    return run_hist(inp)
+  if kind == "sview":
+    return run_sview(inp)
   desc = inp.get("domain")
   if kind == "search":
-    dom = mk_domain(desc)
+    dom = dom or mk_domain(desc)
     p = arr(inp["pts"], oh_dim(desc), style_of(inp, "pts"))
     before = p.copy()
     out = S.convert_one_hot_to_search_hypercube_points(dom, p)
     return dict(out=out.tolist(), inputs_unmodified=bool(numpy.array_equal(p, before)))
   if kind == "unit":
-    dom = mk_domain(desc)
+    dom = dom or mk_domain(desc)
     p = arr(inp["pts"], oh_dim(desc), style_of(inp, "pts"))
     before = p.copy()
     u = S.map_non_categorical_points_to_unit_hypercube(dom.one_hot_domain, p)
@@ -458,7 +617,7 @@ def run_impl(kind, inp):
     b = S.map_non_categorical_points_from_unit_hypercube(dom.one_hot_domain, u)
     return dict(to=u.tolist(), back=b.tolist(), inputs_unmodified=bool(numpy.array_equal(p, before) and numpy.array_equal(u, u_before)))
   if kind == "dist":
-    dom = mk_domain(desc)
+    dom = dom or mk_domain(desc)
     sp = S.convert_one_hot_to_search_hypercube_points(dom, arr([inp["p"]], oh_dim(desc)))
     sq = S.convert_one_hot_to_search_hypercube_points(dom, arr([inp["q"]], oh_dim(desc)))
     return dict(out=float(compute_distance_matrix_squared(sp, sq)[0, 0]), sp=sp[0].tolist(), sq=sq[0].tolist())
@@ -583,8 +742,8 @@ def perturb(rng, desc, base, exact):
   return p
 
 
-def gen_eval(rng, exact, real_fm=False):
-  desc = gen_desc(rng, exact)
+def gen_eval(rng, exact, real_fm=False, desc=None):
+  desc = desc or gen_desc(rng, exact)
   D = oh_dim(desc)
   nrep = rng.choice([0, 1, 1, 2, 3, 4])
   reps = [gen_point(rng, desc, exact) for _ in range(nrep)]
@@ -640,8 +799,8 @@ def gen_eval(rng, exact, real_fm=False):
               pre_dp=(float(dp) * rng.choice([2.0, 4.0, 16.0]) + rng.choice([0.0, 0.5])) if rng.random() < 0.3 else None)
 
 
-def gen_loop(rng, exact):
-  desc = gen_desc(rng, exact)
+def gen_loop(rng, exact, desc=None):
+  desc = desc or gen_desc(rng, exact)
   r0 = [gen_point(rng, desc, exact) for _ in range(rng.choice([0, 1, 2, 3]))]
   k = rng.randint(1, 3)
   picks = [gen_point(rng, desc, exact, relaxed=rng.random() < 0.5) for _ in range(k)]
@@ -649,6 +808,89 @@ def gen_loop(rng, exact):
     picks[-1] = list(picks[0])
   return dict(domain=desc, dp0=rng.choice([0.0, 0.015625, 0.25, 1.0]), r0=r0, draws=[rng.randrange(4) for _ in range(k)], picks=picks,
               fm=dict(type="table", table=[]), np_seed=rng.randint(0, 10 ** 6), exact=exact)
+
+
+def gen_geom(rng, kind, desc, exact):
+  """input of a search / unit / dist / view call sequence on the domain `desc`"""
+  if kind in ("search", "unit"):
+    return dict(domain=desc, pts=[gen_point(rng, desc, exact) for _ in range(rng.randint(1, 5))], exact=exact)
+  if kind == "dist":
+    p = gen_point(rng, desc, exact)
+    return dict(domain=desc, p=p, q=perturb(rng, desc, p, exact), exact=exact)
+  assert kind == "view"
+  return dict(domain=desc, sampled=[gen_point(rng, desc, exact, relaxed=False) for _ in range(rng.randint(1, 4))],
+              pending=[gen_point(rng, desc, exact, relaxed=False) for _ in range(rng.choice([0, 0, 1, 2]))], draw=rng.randrange(4), exact=exact)
+
+
+def gen_hist(rng, exact):
+  """2..5 call sequences on one live domain object (run_hist); the domain has a numeric parameter (almost always with a non-zero
+  lower bound); the unit-cube round trip (both directions) is in most histories and rarely the last op"""
+  for _ in range(6):
+    desc = gen_desc(rng, exact)
+    if any(c[0] != "categorical" for c in desc):
+      break
+  k = rng.randint(2, 5)
+  kinds = [rng.choice(["unit", "unit", "unit", "search", "dist", "eval", "eval", "view", "loop"]) for _ in range(k)]
+  if "unit" not in kinds[:-1] and rng.random() < 0.7:
+    kinds[rng.randrange(k - 1)] = "unit"
+  ops = []
+  for kind in kinds:
+    if kind == "eval":
+      ops.append(dict(kind=kind, inp=gen_eval(rng, exact, desc=desc), early=rng.random() < 0.5))
+    elif kind == "loop":
+      ops.append(dict(kind=kind, inp=gen_loop(rng, exact, desc=desc)))
+    else:
+      ops.append(dict(kind=kind, inp=gen_geom(rng, kind, desc, exact)))
+  return dict(domain=desc, ops=ops, exact=exact)
+
+
+def gen_sview(rng, order=None):
+  """A raw request for the REAL search view (lib.c06_util format).  1..3 constraint metrics and 0..2 stored metrics share the value
+  matrix in any column layout; the constraint index list is in ANY order (`order`: 'ascending' / 'descending' / None = as shuffled).
+  Every metric has its own offset and spread, its own objective, its own threshold (inside its own observed range) and its own
+  hyperparameters, so that a model fed with another metric's data / threshold / kernel gives a different probability.  Noise variances
+  are 1e-2 .. 1e-4 of the squared spread (well-conditioned kernel matrices)."""
+  from lib import c06_util as U
+  comps = [U.gen_component(rng) for _ in range(rng.randint(1, 3))]
+  n_con, n_sto = rng.choice([1, 2, 2, 2, 3]), rng.choice([0, 1, 1, 2])
+  m = n_con + n_sto
+  layout = list(range(m))
+  rng.shuffle(layout)
+  con_ix = layout[:n_con]
+  if order == "ascending":
+    con_ix = sorted(con_ix)
+  elif order == "descending":
+    con_ix = sorted(con_ix, reverse=True)
+  n = rng.randint(4, 9)
+  points = U.gen_points(rng, comps, n)
+  spread = [rng.choice([0.5, 1.0, 4.0, 32.0, 0.125]) for _ in range(m)]
+  offset = [rng.choice([0.0, 0.0, 3.0, -20.0, 100.0]) for _ in range(m)]
+  values = [[offset[c] + spread[c] * rng.randint(-32, 32) / 8.0 for c in range(m)] for _ in range(n)]
+  rel = rng.choice([1e-2, 1e-3, 1e-4])
+  vars_ = [[rel * (8.0 * spread[c]) ** 2 * rng.choice([0.5, 1.0, 2.0]) for c in range(m)] for _ in range(n)]
+  pfail = rng.choice([0.0, 0.0, 0.2, 0.4])
+  fails = [rng.random() < pfail for _ in range(n)]
+  if sum(1 for f in fails if not f) < 2:
+    fails = [False] * n
+  objs = [rng.choice(["maximize", "minimize"]) for _ in range(m)]
+  thr = [None] * m
+  for c in range(m):
+    col = [values[r][c] for r in range(n) if not fails[r]]
+    if c in con_ix or rng.random() < 0.3:
+      thr[c] = min(col) + (max(col) - min(col)) * rng.choice([0.2, 0.35, 0.5, 0.65, 0.8]) + (0.0 if max(col) > min(col) else 0.25)
+  hypers = []
+  for _ in range(m):
+    h = U.gen_hyper(rng, comps, False)
+    h["tik"] = None if h["tik"] in (None, 0.0) else h["tik"]     # a supplied nugget of exactly 0 may make the factorisation fail (11.5): not this check's subject
+    hypers.append(h)
+  pending = U.gen_points(rng, comps, rng.choice([0, 0, 1, 2]), avoid=points)
+  evalp = U.gen_points(rng, comps, rng.randint(3, 6), avoid=points + pending)
+  evalp.append(list(points[rng.randrange(n)]))          # on an observed configuration: inside every radius
+  raw = dict(comps=comps, points=points, values=values, vars=vars_, fails=fails, costs=None, objs=objs, opt_ix=[], con_ix=con_ix, thr=thr,
+             pareto=False, budget=50, hypers=hypers, pending=pending, pending_costs=None, evalp=evalp, eval_costs=None,
+             par=rng.choice(["constant_liar", "constant_liar", "qei"]), tasks=[], mean=rng.choice(["constant", "constant", "zero"]), poly=None,
+             max_af=rng.choice([0, 1, 3, 5432]), seed=rng.randrange(1 << 30))
+  return dict(raw=raw, draw=rng.randrange(4))
 
 
 def snap_point(desc, pnt):
@@ -671,6 +913,11 @@ def gen_case(rng):
   """gen_case_plain, and in a third of the cases every array of the call is handed over in a randomly chosen form (lib.gpgen.HANDOVER_STYLES);
   in half of those the points are first snapped to whole numbers and the point arrays handed over with an integer dtype"""
   from lib import gpgen
+  u = rng.random()
+  if u < 0.10:
+    return "hist", gen_hist(rng, rng.random() < 0.7)
+  if u < 0.16:
+    return "sview", gen_sview(rng)
   kind, inp = gen_case_plain(rng)
   keys = dict(eval=("pts", "r0", "adds"), loop=("r0",), search=("pts",), unit=("pts",), view=("sampled", "pending")).get(kind)
   if not keys or rng.random() >= 0.35:
@@ -766,6 +1013,18 @@ def coq_case(kind, inp, out):
   raise ValueError(kind)
 
 
+def sview_case(inp, out):
+  """Coq term (svcase) of one run of the real search view: the raw request and the members of the failure model read back from the
+  acquisition function the view built; `out` is None when the view raised.  Literal printers of the shared request / observation
+  types: tools/props/C06.py."""
+  from props import C06 as P6
+  req = P6.request_lit(inp["raw"], dict(method=None))
+  if out is None:
+    return f"SVRaised {req}"
+  pfs = C.listlit(out["pfs"], lambda m: f"(mkopf {C.nlit(P6.PFCODE.get(m['kind'], 9))} {C.qlit(m['thr'])} {P6.gp_lit(m['gp'])})")
+  return f"SVObs {req} {pfs}"
+
+
 def prod_case(out):
   rows = []
   for i, v in enumerate(out["fm_values"]):
@@ -810,11 +1069,71 @@ def generate(ctx):
 def correspondence(ctx):
   n = ctx.n(500, 6000)
   cases, meta, seen, dist = [], [], set(), {}
+  sv_cases, sv_meta = [], []
   nontriv = 0
   dis = []
   for _ in range(n):
     kind, inp = gen_case(ctx.rng)
-    out = run_impl(kind, inp)
+    if kind == "sview":
+      # the real search view: the members of the failure model it built are compared with Model.SearchView inside Coq (which
+      # column / objective / threshold / hyperparameters each member got); the VALUE is the searcher's subject
+      try:
+        out = run_impl(kind, inp)
+      except numpy.linalg.LinAlgError:
+        continue
+      except Exception as e:
+        out = None
+        sv_err = f"{type(e).__name__}: {e}"
+      if out is not None and out.get("inputs_unmodified") is False:
+        dis.append(dict(what="C19 sview: the view modified the caller's history arrays", kind=kind, input=inp, observed=None))
+      try:
+        sv_cases.append(sview_case(inp, out))
+      except (ValueError, OverflowError) as e:
+        dis.append(dict(what=f"C19 sview: non-finite number in a failure model the view built ({e})", kind=kind, input=inp, observed=repr(out)[:2000]))
+        continue
+      sv_meta.append((kind, inp, out if out is not None else dict(raised=sv_err)))
+      order = inp["raw"]["con_ix"]
+      for b in ["sview", "sview:" + ("raised" if out is None else "one-constraint" if len(order) == 1 else "ascending-index-list" if order == sorted(order) else "non-ascending-index-list"),
+                "sview:stored-metric-before-a-constraint-metric" if any(c not in order for c in range(max(order))) else "sview:constraint-metrics-first"]:
+        dist[b] = dist.get(b, 0) + 1
+      h = C.canon_hash([kind, inp])
+      if h not in seen and out is not None and len(order) >= 2:
+        nontriv += 1
+      seen.add(h)
+      continue
+    try:
+      out = run_impl(kind, inp)
+    except Exception as e:
+      if kind != "hist":
+        raise
+      # on a fresh domain each of these call sequences runs (they are generated like the stand-alone kinds): an exception here comes from the history
+      dis.append(dict(what=f"C19 hist: a call sequence raised {type(e).__name__} on a live domain object that earlier call sequences had used: {e}",
+                      kind=kind, input=inp, observed=repr(e)))
+      continue
+    if kind == "hist":
+      # a history is a list of ordinary call sequences run on ONE live domain object: each is compared with the (pure) model as
+      # the case of its own kind; a disagreement is reported with the whole history (alone, on a fresh domain, the op may be right)
+      for j, (op, o) in enumerate(zip(inp["ops"], out["outs"])):
+        if o.get("inputs_unmodified") is False or not o["domain_unmodified"]:
+          dis.append(dict(what=f"C19 hist: call sequence {j} ({op['kind']}) modified a caller-owned input array or the bounds of the caller's domain object",
+                          kind=kind, input=inp, observed=o))
+        try:
+          cases.append(coq_case(op["kind"], op["inp"], o))
+        except (ValueError, OverflowError) as e:
+          dis.append(dict(what=f"C19 hist: non-finite value in the output of call sequence {j} ({op['kind']}): {e}", kind=kind, input=inp, observed=repr(o)[:2000]))
+          continue
+        meta.append((kind, inp, out))
+        if op["kind"] == "eval" and "factors" in o:
+          cases.append(prod_case(o))
+          meta.append((kind, inp, out))
+        for b in ["hist:" + op["kind"] + (":after-unit-round-trip" if any(x["kind"] == "unit" for x in inp["ops"][:j]) else "")]:
+          dist[b] = dist.get(b, 0) + 1
+      dist["hist"] = dist.get("hist", 0) + 1
+      h = C.canon_hash([kind, inp])
+      if h not in seen and any(x["kind"] == "unit" for x in inp["ops"][:-1]):
+        nontriv += 1
+      seen.add(h)
+      continue
     if out.get("inputs_unmodified") is False:
       dis.append(dict(what=f"C19 {kind}: the implementation modified a caller-owned input array", kind=kind, input=inp, observed=out))
     if kind == "loop" and out["choice_calls"] and any(c != [SCHEDULE, 1] for c in out["choice_calls"]):
@@ -838,13 +1157,23 @@ def correspondence(ctx):
   bad = C.run_cases("C19", HEADER, "case", "check", cases, shard=60)
   dis += [dict(what=f"C19 correspondence case {i} ({meta[i][0]}): implementation output differs from Model.SearchAF / its specification",
                kind=meta[i][0], input=meta[i][1], observed=meta[i][2]) for i in bad]
-  return dict(evaluations=len(cases), distinct_nontrivial=nontriv,
+  if sv_cases:
+    bad = C.run_cases("C19sv", HEADER_SV, "svcase", "svcheck", sv_cases, shard=40)
+    dis += [dict(what=f"C19 search-view case {i}: the failure model the real search view built differs from Model.SearchView (member k must be built from the k-th "
+                      f"listed constraint metric's own column, objective, threshold and hyperparameters)",
+                 kind="sview", input=sv_meta[i][1], observed=sv_meta[i][2]) for i in bad]
+  return dict(evaluations=len(cases) + len(sv_cases), distinct_nontrivial=nontriv,
               rule="domains of 1-4 parameters (double/int/quantized/categorical with 2-4 categories, one-hot dimension <= 25); exact stream: "
                    "power-of-two widths, coordinates lo + width*j/16, one-hot dimension padded to a square, radius on / around a realised "
                    "squared distance, 0, or beyond 2*D; fuzzy stream: arbitrary widths and reals with 1e-9 tolerances; evaluation points on, near, "
                    "far from repulsors and differing only in category, relaxed one-hot blocks with ties; scripted and real (GP logistic / CDF / product) "
-                   "failure models; scripted optimiser and schedule draws for the loop; non-trivial = repulsors present and >= 2 points (eval), "
-                   ">= 2 picks (loop), one-hot dimension >= 2 (geometry); distinct by hash of the canonical input",
+                   "failure models; scripted optimiser and schedule draws for the loop; histories (kind hist): 2-5 of these call sequences run on ONE live "
+                   "domain object (an acquisition function may be constructed before the first and evaluated later), each compared as the case of its own kind, "
+                   "domain bounds compared before / after; the REAL search view (kind sview) on raw requests with 1-3 constraint metrics listed in any order and "
+                   "interleaved with 0-2 stored metrics (own offsets, spreads, objectives, thresholds, hyperparameters per metric; failures; pending points; both "
+                   "parallelism modes): the members of the failure model it built are read back and compared with Model.SearchView; non-trivial = repulsors "
+                   "present and >= 2 points (eval), >= 2 picks (loop), one-hot dimension >= 2 (geometry), a unit-cube round trip before the last op (hist), >= 2 "
+                   "constraint metrics (sview); distinct by hash of the canonical input",
               samples=[dict(kind=k, input=i, impl_output=o) for k, i, o in meta[:3]], distribution=dist, disagreements=dis)
 
 
@@ -855,8 +1184,9 @@ def close(a, b, tol):
   return abs(a - b) <= tol
 
 
-def oracle(kind, inp):
-  """Direct statement of the property on the implementation's output. Returns a failure dict or None."""
+def oracle(kind, inp, out=None):
+  """Direct statement of the property on the implementation's output (`out`: the output observed inside a history; None: run the
+  call sequence now, on fresh objects). Returns a failure dict or None."""
   def fail(sig, what, observed, expected):
     return dict(signature=f"C19:{kind}:{sig}", what=f"{kind}: {what}", input=dict(kind=kind, **inp), observed=observed, expected=expected,
                 oracle="plain-Python rational arithmetic: own normalisation, sum of squared differences with 2*D per differing category")
@@ -865,13 +1195,61 @@ def oracle(kind, inp):
       return oracle_realloop(inp)
     except Exception as e:
       return fail(f"raises:{type(e).__name__}", f"raised {type(e).__name__}: {e}", repr(e), "picks")
-  try:
-    out = run_impl(kind, inp)
-  except Exception as e:
-    if kind in ("erreval", "erradd"):
-      return None
-    return fail(f"raises:{type(e).__name__}", f"raised {type(e).__name__}: {e}", repr(e), "a result")
+  if out is None:
+    try:
+      out = run_impl(kind, inp)
+    except numpy.linalg.LinAlgError as e:
+      if kind == "sview":
+        return None   # a kernel matrix LAPACK cannot factor: C02 / C06's subject (11.5), not a statement about the search value
+      return fail(f"raises:{type(e).__name__}", f"raised {type(e).__name__}: {e}", repr(e), "a result")
+    except Exception as e:
+      if kind in ("erreval", "erradd"):
+        return None
+      return fail(f"raises:{type(e).__name__}", f"raised {type(e).__name__}: {e}", repr(e), "a result")
   desc = inp.get("domain")
+  if kind == "hist":
+    # every op of the history, judged exactly as the same call sequence on a fresh domain is judged
+    for j, (op, o) in enumerate(zip(inp["ops"], out["outs"])):
+      r = oracle(op["kind"], op["inp"], out=o)
+      if r:
+        return dict(r, signature="C19:hist:" + r["signature"][len("C19:"):], input=dict(kind="hist", **inp),
+                    what=f"hist: call sequence {j} of {len(inp['ops'])} on one live domain object ({', '.join(x['kind'] for x in inp['ops'][:j])} ran before it on "
+                         f"the same object): " + r["what"])
+    for j, o in enumerate(out["outs"]):
+      if not o["domain_unmodified"]:
+        return fail("domain-modified", f"the bounds of the caller's domain object differ after call sequence {j} ({inp['ops'][j]['kind']})", None, "bounds unchanged")
+    return None
+  if kind == "sview":
+    raw = inp["raw"]
+    comps, ncon = raw["comps"], len(raw["con_ix"])
+    if not out["inputs_unmodified"]:
+      return fail("input-modified", "the caller's history arrays were modified", None, "inputs unchanged")
+    if len(out["factors"]) != ncon:
+      return fail("factor-count", "the failure model does not have one member per constraint metric", len(out["factors"]), ncon)
+    want_dp = len(comps) * SCHEDULE[inp["draw"]]
+    if not close(out["dp"], want_dp, 1e-12):
+      return fail("radius-schedule", "initial radius is not dim times the drawn schedule value", out["dp"], want_dp)
+    known = raw["points"] + raw["pending"]
+    if len(out["reps"]) != len(known):
+      return fail("repulsors", "the repulsors are not the observed configurations followed by the pending ones", len(out["reps"]), len(known))
+    ref = ref_sview(raw)
+    dp = F(out["dp"])
+    for k, q in enumerate(raw["evalp"]):
+      v = out["values"][k]
+      if not (0.0 <= v <= 1.0):
+        return fail("out-of-range", f"value at query point {k} outside [0,1]", v, "[0,1]")
+      ds = [raw_sqdist(comps, r, q) for r in known]
+      if any(abs(x - dp) <= F(1, 10 ** 8) * max(1, x) for x in ds):
+        continue   # on the edge of a radius: rounding of the distance formula decides
+      if any(x < dp for x in ds):
+        if v != 0.0:
+          return fail("not-zero-within-radius", f"query point {k} is within the repulsion radius of a known configuration but its value is not 0", v, 0.0)
+      elif ref is not None and not close(v, ref[k][0], ref[k][1]):
+        return fail("value-differs-from-per-metric-probability",
+                    f"query point {k} is outside every repulsion radius but its value is not the product over the constraint metrics {raw['con_ix']} of the probability "
+                    f"that the metric (its own data, threshold, objective and hyperparameters) satisfies its threshold (|d| = {abs(v - ref[k][0]):.3e}, tolerance {ref[k][1]:.3e})",
+                    dict(value=v, members=[f[k] for f in out["factors"]]), ref[k][0])
+    return None
   if kind == "eval":
     reps = (inp["r0"] or []) + [p for a in inp["adds"] for p in a]
     if inp["fm"]["type"] == "table":
@@ -1026,9 +1404,24 @@ def search(ctx, hints, broken):
       r = oracle(h["kind"], h["input"])
       if r:
         fails.append(r)
+  # fixed classes first (their own generator seeds: detection must not hang on the position of a case in the random stream):
+  # the real search view with the constraint metrics listed in ascending, descending and shuffled order; histories on a live domain
+  import random as _random
+  for i in range(ctx.n(24, 120)):
+    n += 1
+    r = oracle("sview", gen_sview(_random.Random(9000 + i), order=("descending", "ascending", None)[i % 3]))
+    if r and r["signature"] not in {f["signature"] for f in fails}:
+      fails.append(r)
+  for i in range(ctx.n(30, 150)):
+    n += 1
+    r = oracle("hist", gen_hist(_random.Random(7000 + i), i % 3 != 0))
+    if r and r["signature"] not in {f["signature"] for f in fails}:
+      fails.append(r)
   budget = ctx.n(700, 12000) * (3 if broken else 1)
   rng = ctx.rng
   for _ in range(budget):
+    if len({f["signature"] for f in fails}) >= 3 or len(fails) >= 6:
+      break
     kind, inp = gen_case(rng)
     if kind == "eval" and rng.random() < 0.3:
       inp = gen_eval(rng, False, real_fm=True)
@@ -1074,3 +1467,19 @@ ASSUMPTIONS.append("the value at a point depends on the numbers, not on the arra
                    "numpy.array of int lists), as float32 (when exact), in Fortran order, as a strided view and read-only (lib.gpgen.handover); model and "
                    "oracle see the same numbers, so the comparison is unchanged")
 LEVEL_NOTE += "; the array forms of lib.gpgen.HANDOVER_STYLES are part of the generated inputs (correspondence and searcher)"
+
+# --- gap round B: histories on a live domain object; the real search view with constraint metrics in any order
+ASSUMPTIONS.append("histories: what a call sequence returns on a domain object that earlier call sequences have used is judged exactly as on a fresh domain (the "
+                   "model is a pure function of the domain's bounds; nothing in the property lets a helper change them), and the bounds of the caller's domain "
+                   "object are compared before / after every call sequence (same reading as for caller-owned arrays)")
+ASSUMPTIONS.append("view level: 'the modelled probability of satisfying all metric constraints' is the product over the request's constraint metrics - identified "
+                   "by their column numbers, in whatever order the index list gives them and wherever stored metrics sit between them - of Phi((t_c - mean_c)/sd_c), "
+                   "model c being a Gaussian process on metric c's OWN column (scaled by its own midpoint map, failures and constant-liar pending points at its own "
+                   "worst value), its own hyperparameters and its own threshold (C19_search_view_models_own_metric for the bookkeeping; the searcher's independent "
+                   "reference lib.c06_util.RefGP for the number, with a forward-error tolerance 0.4 (d mean / sd + |z| d var / (2 var)), d mean, d var ~ 1e-15 cond(K), "
+                   "requests with cond(K) > 1e9 not judged); search requests carry no task options (the search acquisition function has no task column)")
+LEVEL_TEXT += ("; at the view level, for every request the search endpoint accepts (no optimised metric, >= 1 constraint metric, index lists in any order): member k of the "
+               "failure model is a CDF model built from the k-th listed metric's own raw column, objective, threshold and hyperparameters (C19_search_view_models_own_metric, "
+               "tied to the real SearchNextPoints view by reading the constructed models back), and the value of the acquisition function the real view builds is compared "
+               "with an independent per-metric Gaussian-process reference; every call sequence is also run inside histories on one live domain object")
+LEVEL_NOTE += "; search-view requests: generated, no task options; ill-conditioned kernel matrices (cond > 1e9) are not judged by the value clause"
